@@ -1199,13 +1199,13 @@ def run_seed(ctx, c):
         names, firsts, plus = ["di", "ri"], [d0, r if c["r0"] == 0 else r + c["r0"]], [True, False]
     else:
         names, firsts, plus = ["li"], [l - 1 if c["r0"] == 0 else l - 1 + c["r0"]], [True]
-    sizes = [rec.size(nm) // x.wo for nm in names]
+    sizes = [rec.size(nm) // 8 for nm in names]
     chains = [make_chain(c["ch"][j], max(firsts[j], 0), sizes[j], plus[j], c["seed"] + nm) for j, nm in enumerate(names)]
     o, _ = L["zi"]
     for i, z in enumerate(zi):
         rec.b[o + 2 * i:o + 2 * i + 2] = z.to_bytes(2, "little")
     for nm, ch in zip(names, chains):
-        rec.put(nm, b"".join(v.to_bytes(x.wo, "little") for v in ch))
+        rec.put(nm, b"".join(v.to_bytes(8, "little") for v in ch))
     what = "%s l=%d zi=%s chains=%s" % (sch, l, zk, chains)
 
     def judge_seed(fn, r_, zi_, chains_):
@@ -1236,7 +1236,7 @@ def run_seed(ctx, c):
         for i, z in enumerate(zi2):
             rec2.b[o + 2 * i:o + 2 * i + 2] = z.to_bytes(2, "little")
         for nm, ch in zip(names, chains2):
-            rec2.put(nm, b"".join(w.to_bytes(x.wo, "little") for w in ch))
+            rec2.put(nm, b"".join(w.to_bytes(8, "little") for w in ch))
         if S2.read() != bytes(rec2.b):
             raise Fail("%sSeedAdj: adjusted seed differs from the documented defaults (%s)" % (sch, what))
         if x.call(sch + "SeedVal", S2):
@@ -1413,12 +1413,12 @@ def tests(tier):
         Test("params_g12s", S_G12S, run_params_g12s, {"quick": 800, "thorough": 16000}, CFG),
         Test("params_dstu", S_DSTU, run_params_dstu, {"quick": 800, "thorough": 16000}, CFG),
         Test("params_pfok", S_PFOK, run_params_pfok, {"quick": 400, "thorough": 8000}, CFG),
-        Test("params_stb99", S_STB99, run_params_stb99, {"quick": 400, "thorough": 8000}, CFG),
+        Test("params_stb99", S_STB99, run_params_stb99, {"quick": 400, "thorough": 8000}, CFG + (("w32",) if CFG == ("asan",) else ())),
         Sweep("big_sets", sweep_big_sets, 13, CFG),
-        Test("seeds", S_SEED, run_seed, {"quick": 1600, "thorough": 32000}, CFG),
+        Test("seeds", S_SEED, run_seed, {"quick": 1600, "thorough": 32000}, CFG + (("w32",) if CFG == ("asan",) else ())),
         Test("bels_valm", S_BELS, run_bels, {"quick": 1600, "thorough": 32000}, CFG),
         Test("pubkey", S_PK, run_pubkey, {"quick": 1200, "thorough": 24000}, CFG),
         Test("keypair", S_KP, run_keypair, {"quick": 800, "thorough": 16000}, CFG),
-        Test("primes_big", S_PBIG, run_primes_big, {"quick": 1600, "thorough": 32000}, CFG),
-        Test("nextprime", S_NP, run_nextprime, {"quick": 1600, "thorough": 32000}, CFG),
+        Test("primes_big", S_PBIG, run_primes_big, {"quick": 1600, "thorough": 32000}, CFG + (("w32",) if CFG == ("asan",) else ())),
+        Test("nextprime", S_NP, run_nextprime, {"quick": 1600, "thorough": 32000}, CFG + (("w32",) if CFG == ("asan",) else ())),
     ]
